@@ -18,33 +18,7 @@ use gamedig::protocols::valve::{self, game, Engine, Environment, GatheringSettin
 use gamedig::verif_hook::net::world;
 use std::net::SocketAddr;
 
-pub struct Enc {
-    pub v: Vec<u8>,
-}
-impl Enc {
-    pub fn new() -> Self { Enc { v: Vec::with_capacity(128) } }
-    pub fn u8(&mut self, x: u8) -> &mut Self {
-        self.v.push(x);
-        self
-    }
-    pub fn bytes(&mut self, b: &[u8]) -> &mut Self {
-        let mut i = 0;
-        while i < b.len() {
-            self.v.push(b[i]);
-            i += 1;
-        }
-        self
-    }
-    pub fn le16(&mut self, x: u16) -> &mut Self { self.bytes(&x.to_le_bytes()) }
-    pub fn le32(&mut self, x: u32) -> &mut Self { self.bytes(&x.to_le_bytes()) }
-    pub fn le64(&mut self, x: u64) -> &mut Self { self.bytes(&x.to_le_bytes()) }
-    pub fn be16(&mut self, x: u16) -> &mut Self { self.bytes(&x.to_be_bytes()) }
-    pub fn be32(&mut self, x: u32) -> &mut Self { self.bytes(&x.to_be_bytes()) }
-    pub fn cstr(&mut self, s: &str) -> &mut Self {
-        self.bytes(s.as_bytes());
-        self.u8(0)
-    }
-}
+pub use crate::common::Enc;
 
 const SKIP: GatheringSettings = GatheringSettings {
     players: GatherToggle::Skip,
